@@ -13,6 +13,7 @@ import (
 	"github.com/relex/slog-agent/base"
 	"github.com/relex/slog-agent/defs"
 	"github.com/relex/slog-agent/util"
+	"github.com/relex/slog-agent/util/vhook"
 )
 
 // clientSession represents a session bound to one forwarding connection
@@ -65,6 +66,7 @@ func newClientSession(client *ClientWorker, conn ClosableClientConnection) *clie
 //
 // The connection will NOT be closed unless there is a network error
 func (session *clientSession) Run(leftovers chan base.LogChunk, maxDuration time.Duration) (chan base.LogChunk, reconnectPolicy) {
+	vhook.E("SessionStart")
 	go session.runAcknowledger()
 
 	if newLeftovers, retry := session.resendLeftovers(leftovers); newLeftovers != nil {
@@ -94,6 +96,7 @@ func (session *clientSession) resendLeftovers(leftovers chan base.LogChunk) (cha
 		select {
 		case <-session.inputClosed.Channel():
 			session.logger.Infof("stop requested (recovery stage)")
+			vhook.E("Resend", "branch", "stop")
 			return session.collectLeftovers(leftovers, endImmediately), noReconnect
 
 		case chunk, ok = <-leftovers:
@@ -104,9 +107,11 @@ func (session *clientSession) resendLeftovers(leftovers chan base.LogChunk) (cha
 			session.metrics.OnLeftoverPopped(chunk)
 			session.logger.Debugf("resending: %v", &chunk)
 			session.lastChunk = &chunk
+			vhook.E("Resend", "branch", "pop", "id", chunk.ID)
 
 		default:
 			// break loop as soon as there is no leftover to process
+			vhook.E("Resend", "branch", "empty")
 			return nil, ""
 		}
 
@@ -140,17 +145,21 @@ func (session *clientSession) processInput(maxDuration time.Duration) (chan base
 		case chunk, ok = <-session.inputChannel:
 			if !ok {
 				session.logger.Infof("stop requested (normal stage)")
+				vhook.E("Normal", "branch", "closed")
 				return session.collectLeftovers(nil, endImmediately), noReconnect
 			}
 			session.logger.Debugf("received new: %v", &chunk)
 			session.lastChunk = &chunk
+			vhook.E("Normal", "branch", "pop", "id", chunk.ID)
 
 		case <-maxSessionDurationSignal:
 			session.logger.Info("max session duration reached, stopping to reconnect")
+			vhook.E("Normal", "branch", "soft", "why", "maxDuration")
 			return session.collectLeftovers(nil, waitPendingChunks), reconnect
 
 		case <-reconnectChan:
 			session.logger.Info("received a SIGUSR1, reconnecting")
+			vhook.E("Normal", "branch", "soft", "why", "sigusr1")
 			return session.collectLeftovers(nil, waitPendingChunks), reconnect
 
 		case <-time.After(defs.ForwarderPingInterval): // send ping (keep-alive) if there is no new log
@@ -188,16 +197,19 @@ func (session *clientSession) sendChunk(chunk base.LogChunk) (bool, reconnectPol
 	select {
 	case session.ackerChan <- chunk:
 		session.metrics.OnForwarded(chunk)
+		vhook.E("Enq", "branch", "ok", "id", chunk.ID)
 		return true, ""
 
 	case <-session.inputClosed.Channel():
 		session.logger.Infof("aborted before queueing chunk for ack due to stop request: %s", chunk.String())
+		vhook.E("Enq", "branch", "stop", "id", chunk.ID)
 		// connection is aborted already by ClientWorker: client.inputClosed.Next(...)
 		return false, noReconnect
 
 	case <-session.ackerEnded.Channel():
 		// acknowledger terminated due to invalid server response, return true and error for reconnection
 		session.logger.Infof("aborted before queueing chunk for ack due to termination of acknowledger: %s", chunk.String())
+		vhook.E("Enq", "branch", "ackerEnded", "id", chunk.ID)
 		// no need to abort connection here as ackEnded can only be signaled due to ACK error (conn aborted) or the next stage collectLeftovers(...)
 		return false, reconnectWithDelay
 	}
@@ -287,6 +299,10 @@ func (session *clientSession) collectLeftovers(maybePreviousLeftovers chan base.
 
 	// remove duplicates
 	newLeftoversChan := newLeftoverChannel(newLeftovers)
+	if vhook.Enabled {
+		vhook.E("Collected", "prev", verifChunkIDs(fromPrevious), "chan", verifChunkIDs(fromAckerChannel), "unack", verifChunkIDs(fromAckerPending),
+			"inproc", inproc, "result", verifChunkIDs(verifPeekChannel(newLeftoversChan)), "ending", string(ending))
+	}
 	session.logger.Infof("collected leftovers: prev(%d) + chan(%d) + unack(%d) + inproc(%d) = unique(%d)",
 		len(fromPrevious), len(fromAckerChannel), len(fromAckerPending), inproc, len(newLeftoversChan))
 
@@ -302,6 +318,9 @@ func (session *clientSession) runAcknowledger() {
 			values = append(values, v)
 		}
 		session.unacked.Store(&values)
+		if vhook.Enabled {
+			vhook.E("AckerEnd", "pending", verifChunkIDs(values))
+		}
 		session.ackerEnded.Signal()
 	}()
 	for {
@@ -321,6 +340,7 @@ func (session *clientSession) runAcknowledger() {
 				}
 				pendingChunksByID[chunk.ID] = chunk
 				nextChunk = chunk
+				vhook.E("AckerTake", "id", chunk.ID)
 				clogger.Debugf("received pending chunk %s", chunk.ID)
 			case <-session.ackerAbort.Channel():
 				clogger.Info("stop requested, abort acknowledger")
